@@ -6,11 +6,20 @@
 #include "QCommon.hpp"
 namespace QV {
 template <typename C> struct GStream {
+    using CharType = C;
     void Write(const C *str, Qentem::SizeT length);
     void operator+=(C ch);
     bool IsNotEmpty() const noexcept;
     bool IsEmpty() const noexcept;
     Qentem::SizeT Length() const noexcept;
+    C *Last() const noexcept;
+    C *Storage() const noexcept;
+    void Reverse(Qentem::SizeT index = 0) noexcept;
+    void StepBack(const Qentem::SizeT len) noexcept;
+    void InsertAt(C ch, Qentem::SizeT index);
+    C *Buffer(Qentem::SizeT len);
+    void SetLength(Qentem::SizeT len);
+    const C *First() const noexcept;
 };
 }
 #endif
